@@ -92,6 +92,14 @@ def cases(draw):
         base = world.deep_merge(base, {"t2": {"ranking": {"alpha_sim": 0.5, "beta_recency": 0.4, "gamma_importance": 0.1}}})
     if draw(st.booleans()):
         base = world.deep_merge(base, {"t1": {"queue_budget": draw(st.sampled_from([2, 4, 10000])), "radius_cap": draw(st.sampled_from([1, 2, 4]))}})
+    if draw(st.booleans()):
+        # decay settings differ from case to case: anything the process memoises about them must be keyed completely
+        base = world.deep_merge(base, {"t1": {"decay": draw(st.sampled_from([
+            {"mode": "attn_quad", "alpha": 0.1}, {"mode": "attn_quad", "alpha": 2.0}, {"mode": "attn_quad", "alpha": 0.8},
+            {"mode": "exp_floor", "rate": 0.9, "floor": 0.05}, {"mode": "exp_floor", "rate": 0.3, "floor": 0.2}]))}})
+    if draw(st.booleans()):
+        base = world.deep_merge(base, {"t1": {"edge_type_mult": draw(st.sampled_from([
+            {"supports": 1.0, "associates": 0.6, "contradicts": 0.8}, {"supports": 0.4, "associates": 1.0, "contradicts": 0.1}]))}})
     words = [w for e in eps for w in (e.get("text") or "").lower().split()] or world.VOCAB[:4]
     glabels = [n["label"] for g in graphs.values() for n in g["nodes"] if n["label"]] or world.VOCAB[:2]
     script = []
